@@ -86,6 +86,8 @@ type Object struct {
 	Name string
 	// Input is set for objects that exist in the pre-state of a verified function
 	Input bool
+	// Owned marks a backing array created by append: later appends to a slice over it extend it in place
+	Owned bool
 }
 
 func (o *Object) String() string { return fmt.Sprintf("obj%d(%s)", o.ID, o.Name) }
